@@ -139,7 +139,11 @@ func exec(planJSON []byte, run *core.Run) {
 		m := map[string][][]byte{}
 		for _, k := range f.kinds {
 			for s := 0; s < p.Slots; s++ {
-				m[k] = append(m[k], f.enc[k](pool[k][s]))
+				// what a marshaler returns belongs to the caller: it is copied out and scribbled over,
+				// so an encoding that shares memory with the object corrupts the object visibly
+				b := f.enc[k](pool[k][s])
+				m[k] = append(m[k], append([]byte{}, b...))
+				core.Recycle(b)
 			}
 		}
 		return m
